@@ -153,6 +153,126 @@ def inline_rounding(chk, v, st, phase, M):
     return True, "same interval expression as approxPhase"
 
 
+def tgsw_decrypt_by_interpretation(chk, v, gd):
+    """tGswSymDecrypt, interpreted with abstract data (sa/concrete.PolyState) for k in {1,2}, l in 1..3, N in {1,2} and every subset Z of
+    digits assumed zero: the gadget decomposition of the constant 1/Msize leaves constant polynomials D_i (D_i = 0 for i in Z),
+    tLwePhase(tmp, row r, &key->tlwe_key) leaves the indeterminates phase(r, j), AddMulR is the negacyclic product-accumulate, and
+    what is finally stored in result[j] must be modSwitchFromTorus32(sum_{i not in Z} D_i * phase(k*l + i, j), Msize).
+    -> None or a witness"""
+    from sa import concrete, symexec
+    import itertools as _it
+    dres, dsamp, dkey, dM = [p["n"] for p in gd.params]
+    par = P(dkey, "params")
+    Kt, Lt, Nt, KPLt = sym.arrow(sym.arrow(par, "tlwe_params"), "k"), sym.arrow(par, "l"), sym.arrow(sym.arrow(par, "tlwe_params"), "N"), sym.arrow(par, "kpl")
+    effs = symexec.run_function(v, gd, hooks=NOINLINE)[0]
+    cell = lambda poly, fld_, i_: concrete.location(sym.addr(sym.idx(sym.arrow(poly, fld_), I(i_))), {})
+
+    def row_of(t, env, lv_):
+        r_, path = concrete.location(t, env)
+        if r_ != sym.sym(dsamp):
+            raise concrete.NotEvaluable("phase of a row of %s" % sym.show(r_))
+        if len(path) == 3 and path[1] == "all_sample":
+            return path[2]
+        if len(path) == 4 and path[1] == "bloc_sample":
+            return path[2] * lv_ + path[3]
+        raise concrete.NotEvaluable("row %s" % (path,))
+    for kv, lv_, nv in _it.product((1, 2), (1, 2, 3), (1, 2)):
+        for Z in _it.chain.from_iterable(_it.combinations(range(lv_), r) for r in range(lv_ + 1)):
+            st = concrete.PolyState()
+            log = []
+
+            def polyvals(ptr, fld_, env):
+                r_, path = concrete.location(ptr, env)
+                return [(r_, path + (fld_, j_)) for j_ in range(nv)]
+
+            def h(kind, x, env):
+                if kind in ("local", "store"):
+                    st.assign(x, env)
+                    return None
+                if kind == "cond":
+                    c = x["cond"]
+                    if c[0] == "op" and c[1] in ("==", "!=") and (c[3] == ZERO or c[2] == ZERO):
+                        val = st.value(c[2] if c[3] == ZERO else c[3], env)
+                        if val is not None:
+                            return (not val) == (c[1] == "==")         # an indeterminate digit outside Z is not zero
+                    return None
+                if kind in ("alloc", "delete"):
+                    return None
+                if kind != "call":
+                    raise concrete.NotEvaluable("%s at line %s" % (kind, x.get("l")))
+                nm, a = x["name"], x.get("args", [])
+                if x.get("noreturn") or nm.startswith(("new_", "delete_")):
+                    return None
+                if nm == "torusPolynomialClear":
+                    for loc in polyvals(a[0], "coefsT", env):
+                        st.write(loc, {})
+                elif nm == "tGswTorus32PolynomialDecompH":
+                    src = [st.read(loc) for loc in polyvals(a[1], "coefsT", env)]
+                    okc = src[0] is not None and len(src[0]) == 1 and all(s_ == {} for s_ in src[1:])
+                    if okc:
+                        (m_, c_), = src[0].items()
+                        okc = c_ == 1 and len(m_) == 1 and m_[0][0] == "draw" and m_[0][1] == ("call", "modSwitchToTorus32", (I(1), sym.sym(dM)))
+                    log.append(("decomp", okc))
+                    r_, path = concrete.location(a[0], env)
+                    for i_ in range(lv_):
+                        for j_ in range(nv):
+                            st.write((r_, path[:-1] + (path[-1] + i_, "coefs", j_)), {(("digit", i_),): 1} if j_ == 0 and i_ not in Z else {})
+                elif nm == "tLwePhase":
+                    r = row_of(a[1], env, lv_)
+                    if a[2] != sym.addr(sym.fld(sym.idx(sym.sym(dkey), ZERO), "tlwe_key")):
+                        log.append(("key", sym.show(a[2])))
+                    for j_, loc in enumerate(polyvals(a[0], "coefsT", env)):
+                        st.write(loc, {(("phase", r, j_),): 1})
+                elif "AddMulR" in nm or "SubMulR" in nm:
+                    sgn = -1 if "Sub" in nm else 1
+                    ia = [st.read(loc) for loc in polyvals(a[1], "coefs", env)]
+                    tb = [st.read(loc) for loc in polyvals(a[2], "coefsT", env)]
+                    dst = polyvals(a[0], "coefsT", env)
+                    acc = [st.read(loc) for loc in dst]
+                    if any(x_ is None for x_ in ia + tb + acc):
+                        raise concrete.NotEvaluable("%s on something that is not a polynomial at line %s" % (nm, x.get("l")))
+                    for p_ in range(nv):
+                        for q_ in range(nv):
+                            t_ = concrete._pmul(ia[p_], tb[q_])
+                            acc[(p_ + q_) % nv] = concrete.lin_add(acc[(p_ + q_) % nv], t_, sgn * (-1 if p_ + q_ >= nv else 1))
+                    for loc, val in zip(dst, acc):
+                        st.write(loc, val)
+                elif nm == "modSwitchFromTorus32":
+                    val = st.value(a[0], env)
+                    if val is None:
+                        raise concrete.NotEvaluable("rounding of something that is not a number at line %s" % x.get("l"))
+                    st.calls[x["ret"]] = ("switch", tuple(sorted(val.items(), key=repr)), a[1])
+                elif nm == "modSwitchToTorus32":
+                    st.called(x)
+                else:
+                    raise concrete.NotEvaluable("call of %s at line %s" % (nm, x.get("l")))
+                return None
+            try:
+                concrete.interpret(effs, {Kt: kv, Lt: lv_, Nt: nv, KPLt: (kv + 1) * lv_}, h, on_segment=st.segment)
+            except concrete.NotEvaluable as e:
+                chk.broken("tGswSymDecrypt: %s" % e)
+            dims = "k = %d, l = %d, N = %d%s" % (kv, lv_, nv, ", digits %s zero" % list(Z) if Z else "")
+            if ("decomp", True) not in log or ("decomp", False) in log:
+                return "with %s: what is decomposed with the gadget is not the constant polynomial modSwitchToTorus32(1, Msize)" % dims
+            bad_key = [x_ for x_ in log if x_[0] == "key"]
+            if bad_key:
+                return "with %s: phase taken under %s, not &key->tlwe_key" % (dims, bad_key[0][1])
+            for j_ in range(nv):
+                got = st.read(cell(sym.sym(dres), "coefs", j_))
+                want = {}
+                for i_ in range(lv_):
+                    if i_ not in Z:
+                        want[tuple(sorted([("digit", i_), ("phase", kv * lv_ + i_, j_)], key=repr))] = 1
+                okj = got is not None and len(got) == 1
+                if okj:
+                    (m_, c_), = got.items()
+                    okj = c_ == 1 and len(m_) == 1 and m_[0][0] == "switch" and dict(m_[0][1]) == want and m_[0][2] == sym.sym(dM)
+                if not okj:
+                    shown = "not a number" if got is None else concrete.show_poly(dict(list(got)[0][0][1]), 4) if got and list(got)[0] and list(got)[0][0][0] == "switch" else concrete.show_poly(got, 3)
+                    return "with %s: result[%d] rounds %s; expected the rounding with Msize of sum_i digit_i * phase(row %d + i)[%d]" % (dims, j_, shown, kv * lv_, j_)
+    return None
+
+
 def run(chk):
     prog = Program()
     chk.explanation = (
@@ -275,6 +395,61 @@ def run(chk):
                     bad="; ".join(problems), variant=vn)
         if sign_ph is None:
             sign_ph = 1
+        def encrypt_enumerated(e, res, msg, key, why):
+            """the function is interpreted for n = 0..17 with the key as indeterminates and every call result (noise, mask draws) as a
+            fresh atom: afterwards b - sign * sum_{i<n} a[i]*key[i] (a[i] as finally stored) must be free of the key and be
+            gaussian32(message, .) or message + (terms without message)"""
+            from sa import concrete, symexec
+            effs = symexec.run_function(v, e, hooks=inl())[0]
+            n_e = sym.arrow(P(key, "params"), "n")
+            M = sym.sym(msg)
+            roots_ = (sym.sym(res), sym.sym(key))
+            for nv in range(0, 18):
+                st = concrete.PolyState()
+
+                def h(kind, x, env):
+                    if kind in ("local", "store"):
+                        st.assign(x, env)
+                    elif kind == "call":
+                        if any(isinstance(a_, tuple) and sym.root_of(a_) in roots_ for a_ in x.get("args", [])):
+                            raise concrete.NotEvaluable("call of %s on the sample or the key at line %s" % (x["name"], x.get("l")))
+                        st.called(x)
+                    elif kind in ("asm", "unknown", "alloc", "delete"):
+                        raise concrete.NotEvaluable("%s at line %s" % (kind, x.get("l")))
+                    return None
+                try:
+                    concrete.interpret(effs, {n_e: nv}, h, on_segment=st.segment)
+                    b_ = st.read(concrete.lvalue_location(P(res, "b"), {}))
+                    tot = {}
+                    for i_ in range(nv):
+                        a_i = st.read(concrete.lvalue_location(sym.idx(P(res, "a"), I(i_)), {}))
+                        k_i = {(("init", concrete.lvalue_location(sym.idx(P(key, "key"), I(i_)), {})),): 1}
+                        if a_i is None:
+                            raise concrete.NotEvaluable("mask coefficient %d is not a number" % i_)
+                        tot = concrete.lin_add(tot, concrete._pmul(a_i, k_i))
+                    if b_ is None:
+                        raise concrete.NotEvaluable("b is not a polynomial in the key, the draws and the message")
+                except concrete.NotEvaluable as ex_:
+                    chk.broken("%s: %s; by enumeration: %s" % (e.name, why, ex_))
+                resid = {m: c for m, c in concrete.lin_add(b_, tot, -sign_ph).items() if c % (1 << 32)}
+                keyed = [m for m in resid if any(isinstance(a_, tuple) and a_[0] == "init" and a_[1][0] == sym.sym(key) for a_ in m)]
+                if keyed:
+                    return ["for n = %d: b - (%+d)*sum a[i]*key[i] = %s still depends on the key (the phase does not cancel the mask)" % (
+                        nv, sign_ph, concrete.show_poly(resid, 5))]
+                stale = [m for m in resid if any(isinstance(a_, tuple) and a_[0] == "init" and a_[1][0] == sym.sym(res) for a_ in m)]
+                if stale:
+                    return ["for n = %d: b keeps a term of the sample's previous content: %s" % (nv, concrete.show_poly(resid, 5))]
+                mterms = {m: c for m, c in resid.items() if (M,) == m or any(isinstance(a_, tuple) and a_[0] == "draw" and a_[1][1] == "gaussian32"
+                                                                               and a_[1][2] and a_[1][2][0] == M for a_ in m)}
+                okm = len(mterms) == 1 and list(mterms.values())[0] % (1 << 32) == 1 and all(len(m) == 1 for m in mterms)
+                if okm and list(mterms)[0] != (M,):
+                    g = v.fn("gaussian32")
+                    gr = [p_ for p_ in summ.pieces(v, g, hooks=NOINLINE)[0] if p_["kind"] == "return"]
+                    gm = sym.sym(g.params[0]["n"])
+                    okm = len(gr) == 1 and sym.linear_in(gr[0]["val"], gm) is not None and sym.linear_in(gr[0]["val"], gm)[0] == I(1)
+                if not okm:
+                    return ["for n = %d: b - sum a[i]*key[i] = %s: the message does not enter with coefficient 1" % (nv, concrete.show_poly(resid, 5))]
+            return []
         for ename in ("lweSymEncrypt", "lweSymEncryptWithExternalNoise"):
             e = v.fn(ename)
             eps, _ = summ.pieces(v, e, hooks=inl())
@@ -291,7 +466,8 @@ def run(chk):
                 problems.append("b is never assigned: message, noise and <a,s> are ADDED to whatever b held before (line %s), so encrypting into a sample "
                                 "that was used before (or anything but a freshly constructed one) gives phase = old b + m + noise" % onto[0]["line"])
             elif len(init) != 1 or len(accb) != 1:
-                problems.append("b is written by %d initialisations and %d accumulations" % (len(init), len(accb)))
+                # not "b = m + noise; b += a[i]*key[i] in one loop" (partial sums in a helper, tails, several passes): by interpretation
+                problems.extend(encrypt_enumerated(e, res, msg, key, "b is written by %d initialisations and %d accumulations" % (len(init), len(accb))))
             else:
                 iv = init[0]["val"]
                 # message + noise: either message + dtot32(noise) or gaussian32(message, alpha) (whose summary is message + dtot32(err))
@@ -517,37 +693,10 @@ def run(chk):
                         ok="bloc_sample[bloc][i].a[bloc] += mu * h[i] for every bloc <= k, i < l (interpreted for k in {1,2}, l, N in 1..3)",
                         bad="; ".join(problems)[:500], variant=vn)
         gd = v.fn("tGswSymDecrypt")
-        dps, _ = summ.pieces(v, gd, hooks=NOINLINE)
-        dres, dsamp, dkey, dM = [p["n"] for p in gd.params]
-        problems = []
-        phc = calls(dps, "tLwePhase")
-        dec = calls(dps, "tGswTorus32PolynomialDecompH")
-        am = [c for c in calls(dps) if "AddMulR" in c["name"]]
-        k_ = sym.arrow(sym.arrow(P(dkey, "params"), "tlwe_params"), "k")
-        l_ = sym.arrow(P(dkey, "params"), "l")
-        if len(phc) != 1 or len(phc[0]["loops"]) != 1:
-            problems.append("expected one tLwePhase in the digit loop")
-        else:
-            lp = phc[0]["loops"][0]
-            if not summ.visits(lp, ZERO, l_):
-                problems.append("digit loop [%s,%s)" % (sym.show(lp["lo"]), sym.show(lp["hi"])))
-            want_row = sym.addr(sym.idx(sym.idx(P(dsamp, "bloc_sample"), k_), lp["var"]))
-            if phc[0]["args"][1] != want_row or phc[0]["args"][2] != sym.addr(sym.fld(sym.idx(sym.sym(dkey), ZERO), "tlwe_key")):
-                problems.append("phase of %s under %s; expected rows bloc_sample[k][i] under &key->tlwe_key" % (
-                    sym.show(phc[0]["args"][1]), sym.show(phc[0]["args"][2])))
-            if len(am) != 1 or am[0]["loops"] != phc[0]["loops"] or am[0]["args"][2] != phc[0]["args"][0]:
-                problems.append("the row phases are not recombined with the decomposition digits")
-        if len(dec) != 1:
-            problems.append("the indicator 1/Msize is not decomposed with the gadget")
-        indic = [p for p in dps if p["kind"] == "store" and p["val"] == ("call", "modSwitchToTorus32", (I(1), sym.sym(dM)))]
-        if len(indic) != 1 or indic[0]["lv"][0] != "idx" or indic[0]["lv"][2] != ZERO:
-            problems.append("testvec[0] is not set to modSwitchToTorus32(1, Msize)")
-        outst = [p for p in dps if p["kind"] == "store" and sym.root_of(p["lv"]) == sym.sym(dres)]
-        if len(outst) != 1 or outst[0]["val"][0] != "call" or outst[0]["val"][1] != "modSwitchFromTorus32" or outst[0]["val"][2][1] != sym.sym(dM):
-            problems.append("result is not modSwitchFromTorus32(., Msize) of the recombination")
-        chk.require(not problems, "R3", "tGswSymDecrypt reads block k, rows i < l, recomposes with the decomposition of 1/Msize and rounds with Msize",
-                    where=gd.where, ok="phase(bloc_sample[k][i]) for i<l; AddMulR(testvec, decomp+i, phase); modSwitchFromTorus32(testvec[j], Msize)",
-                    bad="; ".join(problems), variant=vn)
+        wit = tgsw_decrypt_by_interpretation(chk, v, gd)
+        chk.require(wit is None, "R3", "tGswSymDecrypt reads block k, rows i < l, recomposes with the decomposition of 1/Msize and rounds with Msize",
+                    where=gd.where, ok="interpreted for k in {1,2}, l in 1..3, N in {1,2} and every pattern of zero digits: result[j] = "
+                    "modSwitchFromTorus32(sum_i digit_i(1/Msize) * phase(bloc_sample[k][i])[j], Msize)", bad=wit or "", variant=vn)
         # b aliases component k (constructor)
         ctor = [c for c in v.defined() if c.get("record") == "TLweSample" and c.get("kind") == "ctor" and not c.get("implicit")]
         cps, _ = summ.pieces(v, ctor[0], hooks=NOINLINE)
